@@ -471,8 +471,8 @@ def concretize(p, perm=0, style=None):
                 stm.append(("translate", "i18n:translate", [it["tr"]["id"]]))
             if it.get("nm"):
                 stm.append(("name", "i18n:name", [it["nm"]]))
-            if it.get("ia"):
-                stm.append(("i18n-attributes", "i18n:attributes", ["; ".join((a["n"] + (" " + a["id"] if a["id"] else "")) for a in it["ia"])]))
+            if [a for a in it.get("ia", []) if not a.get("implicit")]:
+                stm.append(("i18n-attributes", "i18n:attributes", ["; ".join((a["n"] + (" " + a["id"] if a["id"] else "")) for a in it["ia"] if not a.get("implicit"))]))
             i18 = it.get("i18n", {})
             if i18.get("m") == "yes":
                 if i18.get("d"):
